@@ -560,23 +560,44 @@ def rank_names(scn, facts):
     return srt, rank
 
 
-def runtime_cfg(scn, facts, lookups="all"):
+def rank_names_shared(scn, facts):
+    """like rank_names for a scenario in which several components announce ONE name (the registration is expected to be
+    refused): every component still gets a rank of its own (ties in generation order), the name map points at the first"""
+    mine = [(regname_of(scn, ci).encode(), 1, ci) for ci in range(len(scn["comps"]))]
+    allk = sorted([(f["name"].encode(), 0, i) for i, f in enumerate(facts)] + mine)
+    rank, crank, srt = {}, {}, []
+    for r, (nm, own, i) in enumerate(allk):
+        rank.setdefault(nm.decode(), r)
+        if own:
+            crank[i] = r
+        if not srt or srt[-1] != nm.decode():
+            srt.append(nm.decode())
+    return srt, rank, [crank[ci] for ci in range(len(scn["comps"]))]
+
+
+def runtime_cfg(scn, facts, lookups="all", shared_names=False):
     rk = rank_names(scn, facts)
-    if rk is None:
+    if rk is None and not shared_names:
         return None
-    srt, rank = rk
+    if rk is None:
+        srt, rank0, crank = rank_names_shared(scn, facts)
+    else:
+        srt, rank0 = rk
+        crank = [rank0[regname_of(scn, ci)] for ci in range(len(scn["comps"]))]
+
+    rank = rank0
     comps = []
     for ci, c in enumerate(scn["comps"]):
-        r = rank[regname_of(scn, ci)]
+        r = crank[ci]
         rc = {"ctor": go_type_name(scn["id"], c["type"]), "rank": r, "name": c["name"], "qual": c["qual"],
               "apsFail": c["apsFail"], "initFail": c["initFail"], "runFail": c["runFail"], "closeErr": c["closeErr"],
               "ord": c["ord"], "rets": c["rets"], "proc": None}
         if c["proc"] is not None:
             rc["proc"] = {
-                "short": [rank[regname_of(scn, k)] for k in c["proc"].get("short", [])],
-                "early": {str(rank[regname_of(scn, k)]): v for k, v in c["proc"]["early"].items()},
-                "after": {str(rank[regname_of(scn, k)]): v for k, v in c["proc"]["after"].items()},
-                "faults": [[ph, rank[regname_of(scn, k)]] for ph, k in c["proc"]["faults"]],
+                "short": [crank[int(k)] for k in c["proc"].get("short", [])],
+                "early": {str(crank[int(k)]): v for k, v in c["proc"]["early"].items()},
+                "after": {str(crank[int(k)]): v for k, v in c["proc"]["after"].items()},
+                "faults": [[ph, crank[int(k)]] for ph, k in c["proc"]["faults"]],
             }
         rc["initGet"] = [regname_of(scn, k) for k in c.get("initGet", [])]
         comps.append(rc)
